@@ -299,8 +299,18 @@ pub fn drive_encrypt(t: &mut Tracer, tier: &str, seed: u64, plan: Option<String>
             decrypt_event(t, &sess(), "C05", &key.d, &ct, orders[f % 2], f >= 2, "own-ciphertext");
         }
     }
+    // a message longer than 255 KDF blocks (the 32-bit counter's second byte comes into play)
+    {
+        let gg = Gen::new("mix", rng.below(1 << 20));
+        let len = 8161 + rng.below(if thorough { 20000 } else { 600 }) as usize;
+        if let Some(ct) = encrypt_event(t, &sess(), &key, Some(&gg), &gg.msg(len), "c1c3c2", false, vec![]) {
+            decrypt_event(t, &sess(), "C05", &key.d, &ct, "c1c3c2", false, "own-ciphertext");
+        }
+    }
     // KDF unit events
-    let klens: Vec<usize> = if thorough { (1..=300).collect() } else { vec![1, 31, 32, 33, 63, 64, 65, 95, 96, 97, 128, 200, 256, 300] };
+    // beyond 255 KDF blocks (counter byte carry at 8160 bytes) as well
+    let mut klens: Vec<usize> = if thorough { (1..=300).collect() } else { vec![1, 31, 32, 33, 63, 64, 65, 95, 96, 97, 128, 200, 256, 300] };
+    klens.extend(if thorough { vec![8159, 8160, 8161, 8192, 8193, 12000, 16385, 20000] } else { vec![8160, 8161, 8225] });
     for klen in klens {
         let z = rng.bytes(64);
         let out = guard(|| Ok::<_, String>(gm_sm2::util::kdf(&z, klen)));
@@ -807,6 +817,7 @@ pub fn drive_ec(t: &mut Tracer, tier: &str, seed: u64) {
     let mut scalars: Vec<Vec<u8>> = vec![vec![0u8; 32], be_add_small(&vec![0u8; 32], 1), be_add_small(&vec![0u8; 32], 2), be_add_small(&nhex, -1), nhex.clone(), vec![0xffu8; 32]];
     for d in 1..=40i64 { if thorough || d % 4 == 2 || d == 1 { scalars.push(be_add_small(&nhex, d)); } }
     for _ in 0..(if thorough { 40 } else { 6 }) { scalars.push(rng.bytes(32)); }
+    for w in 0..4 { scalars.push(crate::suites::sm9::sparse_scalar(&mut rng, w)); }       // zero 64-bit limbs / zero nibbles
     for (i, k) in scalars.iter().enumerate() {
         let base = if i % 2 == 0 { pts[i % pts.len()].to_affine_point() } else { pts[i % pts.len()] };
         let ku = be_u256(k);
